@@ -18,13 +18,14 @@ notes = open(os.path.join(d, "notes.md")).read()
 patch = open(os.path.join(d, "patch.diff")).read()
 files = sorted(set(re.findall(r"^\+\+\+ b/(\S+)", patch, re.M)))
 detected = any(c["exit"] == 1 for c in checks.values())
+status = "evaluated" if checks else "not evaluated: patch.diff no longer applies to the current /repo HEAD (the code it changes was rewritten by a later fix: commit)"
 meta = {
     "seed": tag, "property": pid, "origin": "independent sub-agent given only the property text and a scratch worktree",
     "files_changed": files,
     "needs_to_manifest": notes.split("\n\n")[1][:1200] if "\n\n" in notes else notes[:1200],
     "confirmed_by_me": {"how": "tools/seed_eval.sh: fresh worktree of /repo HEAD; demo passes without the patch, fails with it; whole existing suite green with the patch", "result": confirm},
     "checks_run": checks,
-    "detected": detected,
+    "detected": detected, "status": status, "repo_head": os.popen("git -C /repo log --format=%h -1").read().strip(),
 }
 json.dump(meta, open(os.path.join(d, "meta.json"), "w"), indent=1)
-print(tag, "detected" if detected else "MISSED", {k: v["exit"] for k, v in checks.items()})
+print(tag, ("detected" if detected else "MISSED") if checks else "NOT-APPLICABLE-PATCH", {k: v["exit"] for k, v in checks.items()})
